@@ -240,6 +240,9 @@ class Universe:
             def calculate_feature(cls: Any, data: Any, features: Any, _f: Any = feats) -> Any:
                 names = sorted(f.get_name() for f in features.features)
                 uni.listener.on_enter(gname, names, columns_of(data), data, features)
+                if uni.spec.get("delay_ms"):
+                    import time as _t
+                    _t.sleep(uni.spec["delay_ms"] / 1000.0)
                 new: Dict[str, List[Any]] = {}
                 n_rows = nrows(data)
                 for n in names:
